@@ -207,139 +207,243 @@ def multiStep (E : Env) (k : Kind) (s : MultiState) : MultiOp →
 
 /-! ### Ref
 
-A form `Dict{ sub: Dict{ t: <scalar k> }, r: Ref('../sub/t') }`.  Since fix b196482 `Ref.target`
-is a plain property: the element at the target path is looked up on every access, so the only
-state is the state of that element. -/
+The form is a tree of elements; a Ref is a path into that tree (`Ref.to('../sub/t')`,
+`Ref.to('../l/1')`: from the Ref, up to the form, then down by names and list positions).
+`Ref.target` is `self.find_one(self.target_path)`, evaluated on every access (fix b196482), so a
+Ref read is: resolve the path against the tree as it is NOW, then read `.value` / `.u` there; a
+write through a writable Ref assigns at the resolved element.
+
+Leaves carry an identity so that "the same element object" can be told from "another element at
+the same place": `Dict.set` rebuilds its members (new identities), list insertions and deletions
+move elements to other positions (same identities). -/
 
 inductive Writable | ignore | yes | no
   deriving DecidableEq, Repr, Inhabited
 
-structure RefState where
-  t : SState                     -- state of the element now at `sub/t`
+inductive PStep | name (n : Str) | index (i : Nat)
   deriving DecidableEq, Repr, Inhabited
 
-inductive RefOp
-  | targetSet (x : Native)       -- `form['sub']['t'].set(x)`
-  | subSet (x : Native)          -- `form['sub'].set({'t': x})`: `_reset()` replaces the member
-  | read                         -- `form['r'].value, form['r'].u`
-  | refSet (x : Native)          -- `form['r'].set(x)`
-  deriving Repr, Inhabited
+inductive Tree
+  | leaf (id : Nat) (k : Kind) (st : SState)
+  | dict (names : List Str) (ms : List Tree)
+  | list (k : Kind) (ms : List Tree)
+  deriving Inhabited
 
-/-- write `value`/`u` through to the target (`self.target.value = ...`) -/
-def RefState.write (s : RefState) (v : Native) (u : Str) : RefState :=
-  { s with t := { s.t with value := v, u := u } }
+/-- position of a name in a field list -/
+def nameIdx (names : List Str) (n : Str) : Option Nat :=
+  let i := names.idxOf n
+  if i < names.length then some i else none
 
-inductive RefRaise | typeError | scalar (r : Raise)
+/-- one step of `find_one`: a field of a mapping by name, a member of a sequence by position -/
+def Tree.child : Tree → PStep → Option Tree
+  | .dict names ms, .name n => (nameIdx names n).bind fun i => ms[i]?
+  | .list _ ms, .index i => ms[i]?
+  | _, _ => none
+
+/-- `find_one(path)` from the form: the element the path denotes in this tree, if any -/
+def Tree.resolve : Tree → List PStep → Option Tree
+  | t, [] => some t
+  | t, s :: rest => match t.child s with
+                    | some c => c.resolve rest
+                    | none => none
+
+def Tree.setChild : Tree → PStep → Tree → Tree
+  | .dict names ms, .name n, c => match nameIdx names n with
+                                  | some i => .dict names (ms.set i c)
+                                  | none => .dict names ms
+  | .list k ms, .index i, c => .list k (ms.set i c)
+  | t, _, _ => t
+
+/-- replace the element at a path -/
+def Tree.replaceAt : Tree → List PStep → Tree → Option Tree
+  | _, [], new => some new
+  | t, s :: rest, new => match t.child s with
+                         | none => none
+                         | some c => (c.replaceAt rest new).map (t.setChild s)
+
+/-- value and text of the element a path denotes (a scalar) -/
+def denoted (t : Tree) (path : List PStep) : Option (Native × Str) :=
+  match t.resolve path with
+  | some (.leaf _ _ st) => some (st.value, st.u)
+  | _ => none
+
+structure TState where
+  tree : Tree
+  next : Nat                     -- next unused identity
+
+inductive TOp
+  | leafSet (p : List PStep) (x : Native)                      -- `<scalar at p>.set(x)`
+  | dictSet (p : List PStep) (vals : List (Str × Native))      -- `<Dict at p>.set({...})`: members are rebuilt
+  | listSet (p : List PStep) (xs : List Native)                -- `<List at p>.set([...])`
+  | listInsert (p : List PStep) (i : Nat) (x : Native)         -- `<List at p>.insert(i, x)`
+  | listDel (p : List PStep) (i : Nat)                         -- `del <List at p>[i]`
+  | refRead                                                    -- `ref.value, ref.u`
+  | refSet (x : Native)                                        -- `ref.set(x)`
+  deriving Inhabited
+
+inductive TRaise | typeError | lookupError | indexError | unmodelled | scalar (r : Raise)
   deriving DecidableEq, Repr, Inhabited
 
-/-- one operation: new state, the call's return value, and for `read` the observed `(value, u)` -/
-def RefState.step (E : Env) (k : Kind) (w : Writable) (s : RefState) :
-    RefOp → Except RefRaise (RefState × Option Bool × Option (Native × Str))
-  | .targetSet x =>
-    match setScalar E k x with
-    | .error e => .error (.scalar e)
-    | .ok r => .ok ({ s with t := r.st }, some r.flag, none)
-  | .subSet x =>
-    -- a fresh member takes the place of the old one; the Ref finds it at its next access
-    match setScalar E k x with
-    | .error e => .error (.scalar e)
-    | .ok r => .ok ({ t := r.st }, some r.flag, none)
-  | .read => .ok (s, none, some (s.t.value, s.t.u))          -- `self.target.value`, `self.target.u`
-  | .refSet x =>
-    -- Scalar.set on the Ref: adapt/serialize are the target's, value/u assignments go through the
-    -- `writable` switch
-    match adapt E k x with
-    | .error e => .error (.scalar e)
-    | .ok (some v) =>
-      match w with
-      | .no => .error .typeError                             -- `self.value = ...` raises TypeError
-      | .ignore => match uOfValue E k v with
-                   | .error e => .error (.scalar e)
-                   | .ok _ => .ok (s, some true, none)
-      | .yes => match uOfValue E k v with
-                | .error e => .error (.scalar e)
-                | .ok u => .ok (s.write v u, some true, none)
-    | .ok none =>
-      match w with
-      | .no => .error .typeError
-      | .ignore => match uOfFailed E.T x with
-                   | .error e => .error (.scalar e)
-                   | .ok _ => .ok (s, some false, none)
-      | .yes => match uOfFailed E.T x with
-                | .error e => .error (.scalar e)
-                | .ok u => .ok (s.write .none u, some false, none)
+/-- fresh scalar members, each `set()` with its value; identities from `next` on -/
+def freshLeaves (E : Env) (k : Kind) (next : Nat) : List Native → Except Raise (List Tree × List Bool)
+  | [] => .ok ([], [])
+  | x :: rest =>
+    match setScalar E k x, freshLeaves E k (next + 1) rest with
+    | .ok r, .ok (ts, fs) => .ok (Tree.leaf next k r.st :: ts, r.flag :: fs)
+    | .error e, _ => .error e
+    | _, .error e => .error e
 
-/-! ### Ref into a List: `Dict{ l: List.of(<scalar k>), r: Ref('../l/0') }`
+/-- `Dict._reset()` + the member loop: every field gets a NEW member, set with its value if given -/
+def rebuildMembers (E : Env) (next : Nat) : List Str → List Tree → List (Str × Native) →
+    Except TRaise (List Tree × List Bool)
+  | n :: ns, .leaf _ k _ :: ms, vals =>
+    let mine := (vals.filter (·.1 == n)).map (·.2)
+    -- successive sets of the new member: the last given value stays
+    let one : Except Raise (SState × List Bool) := mine.foldl (fun acc x =>
+      match acc, setScalar E k x with
+      | .ok (_, fs), .ok r => .ok (r.st, fs ++ [r.flag])
+      | .error e, _ => .error e
+      | _, .error e => .error e) (.ok (Flatland.C04.blankState, []))
+    match one, rebuildMembers E (next + 1) ns ms vals with
+    | .ok (st, fs), .ok (ts, gs) => .ok (Tree.leaf next k st :: ts, fs ++ gs)
+    | .error e, _ => .error (.scalar e)
+    | _, .error e => .error e
+  | [], [], _ => .ok ([], [])
+  | _, _, _ => .error .unmodelled
 
-The target path names a position; mutations of the list change which element sits there. -/
-
-inductive RefListOp
-  | listSet (xs : List Native)   -- `form['l'].set(xs)`
-  | insertFront (x : Native)     -- `form['l'].insert(0, x)`
-  | deleteFront                  -- `del form['l'][0]`
-  | memberSet (i : Nat) (x : Native)
-  | read
-  | refSet (x : Native)
-  deriving Repr, Inhabited
-
-inductive RefListRaise | typeError | lookupError | indexError | scalar (r : Raise)
-  deriving DecidableEq, Repr, Inhabited
-
-def setHead (s : List SState) (v : Native) (u : Str) : List SState :=
-  match s with
-  | [] => []
-  | m :: rest => { m with value := v, u := u } :: rest
-
-def refListStep (E : Env) (k : Kind) (w : Writable) (s : List SState) :
-    RefListOp → Except RefListRaise (List SState × Option Bool × Option (Native × Str))
-  | .listSet xs =>
-    let outs := xs.map fun v => setScalar E k v
-    match outs.findSome? (fun o => match o with | .error e => some e | .ok _ => none) with
-    | some e => .error (.scalar e)
-    | none =>
-      let oks := outs.filterMap fun o => match o with | .ok r => some r | .error _ => none
-      .ok (oks.map (·.st), some (oks.all (·.flag)), none)
-  | .insertFront x =>
-    match setScalar E k x with
-    | .error e => .error (.scalar e)
-    | .ok r => .ok (r.st :: s, none, none)
-  | .deleteFront =>
-    match s with
-    | [] => .error .indexError
-    | _ :: rest => .ok (rest, none, none)
-  | .memberSet i x =>
-    if i < s.length then
+/-- the operations that do not involve the Ref -/
+def treeStep (E : Env) (s : TState) : TOp → Except TRaise (TState × Option Bool)
+  | .leafSet p x =>
+    match s.tree.resolve p with
+    | some (.leaf id k _) =>
       match setScalar E k x with
       | .error e => .error (.scalar e)
-      | .ok r => .ok (s.set i r.st, some r.flag, none)
-    else .error .indexError
-  | .read =>
-    match s with
-    | [] => .error .lookupError                      -- `find_one` finds no child '0'
-    | m :: _ => .ok (s, none, some (m.value, m.u))
-  | .refSet x =>
-    match s with
-    | [] => .error .lookupError
-    | _ :: _ =>
-      match adapt E k x with
+      | .ok r => match s.tree.replaceAt p (.leaf id k r.st) with
+                 | some t => .ok ({ s with tree := t }, some r.flag)
+                 | none => .error .unmodelled
+    | _ => .error .indexError
+  | .dictSet p vals =>
+    match s.tree.resolve p with
+    | some (.dict names ms) =>
+      match rebuildMembers E s.next names ms vals with
+      | .error e => .error e
+      | .ok (ts, fs) => match s.tree.replaceAt p (.dict names ts) with
+                        | some t => .ok (⟨t, s.next + names.length⟩, some (fs.all id))
+                        | none => .error .unmodelled
+    | _ => .error .unmodelled
+  | .listSet p xs =>
+    match s.tree.resolve p with
+    | some (.list k _) =>
+      match freshLeaves E k s.next xs with
       | .error e => .error (.scalar e)
-      | .ok (some v) =>
-        match w with
-        | .no => .error .typeError
-        | .ignore => match uOfValue E k v with
-                     | .error e => .error (.scalar e)
-                     | .ok _ => .ok (s, some true, none)
-        | .yes => match uOfValue E k v with
-                  | .error e => .error (.scalar e)
-                  | .ok u => .ok (setHead s v u, some true, none)
-      | .ok none =>
-        match w with
-        | .no => .error .typeError
-        | .ignore => match uOfFailed E.T x with
-                     | .error e => .error (.scalar e)
-                     | .ok _ => .ok (s, some false, none)
-        | .yes => match uOfFailed E.T x with
-                  | .error e => .error (.scalar e)
-                  | .ok u => .ok (setHead s .none u, some false, none)
+      | .ok (ts, fs) => match s.tree.replaceAt p (.list k ts) with
+                        | some t => .ok (⟨t, s.next + xs.length⟩, some (fs.all id))
+                        | none => .error .unmodelled
+    | _ => .error .unmodelled
+  | .listInsert p i x =>
+    match s.tree.resolve p with
+    | some (.list k ms) =>
+      match setScalar E k x with
+      | .error e => .error (.scalar e)
+      | .ok r => match s.tree.replaceAt p (.list k (ms.take i ++ [Tree.leaf s.next k r.st] ++ ms.drop i)) with
+                 | some t => .ok (⟨t, s.next + 1⟩, none)
+                 | none => .error .unmodelled
+    | _ => .error .unmodelled
+  | .listDel p i =>
+    match s.tree.resolve p with
+    | some (.list k ms) =>
+      if i < ms.length then
+        match s.tree.replaceAt p (.list k (ms.eraseIdx i)) with
+        | some t => .ok ({ s with tree := t }, none)
+        | none => .error .unmodelled
+      else .error .indexError
+    | _ => .error .unmodelled
+  | .refRead => .error .unmodelled
+  | .refSet _ => .error .unmodelled
+
+def isRefOp : TOp → Bool
+  | .refRead => true
+  | .refSet _ => true
+  | _ => false
+
+/-- what one operation shows: the call's return value and, for a Ref read, the observed `(value, u)` -/
+abbrev StepOut (σ : Type) := Except TRaise (σ × Option Bool × Option (Native × Str))
+
+/-- the Ref as the code has it since b196482: the target is looked up on every access -/
+def liveStep (E : Env) (w : Writable) (path : List PStep) (s : TState) : TOp → StepOut TState
+  | .refRead =>
+    match s.tree.resolve path with
+    | some (.leaf _ _ st) => .ok (s, none, some (st.value, st.u))      -- `self.target.value`, `self.target.u`
+    | _ => .error .lookupError                                         -- `find_one` finds nothing
+  | .refSet x =>
+    match s.tree.resolve path with
+    | some (.leaf id k st) =>
+      -- Scalar.set on the Ref: adapt/serialize are the target's, the value/u assignments go through `writable`
+      let outcome : Except Raise (Bool × Native × Str) :=
+        match adapt E k x with
+        | .error e => .error e
+        | .ok (some v) => match uOfValue E k v with
+                          | .error e => .error e
+                          | .ok u => .ok (true, v, u)
+        | .ok none => match uOfFailed E.T x with
+                      | .error e => .error e
+                      | .ok u => .ok (false, .none, u)
+      match adapt E k x, w with
+      | .error e, _ => .error (.scalar e)
+      | _, .no => .error .typeError                                    -- `self.value = ...` raises TypeError
+      | _, _ =>
+        match outcome with
+        | .error e => .error (.scalar e)
+        | .ok (flag, v, u) =>
+          if w == .yes then
+            match s.tree.replaceAt path (.leaf id k { st with value := v, u := u }) with
+            | some t => .ok ({ s with tree := t }, some flag, none)
+            | none => .error .unmodelled
+          else .ok (s, some flag, none)
+    | _ => .error .lookupError
+  | op =>
+    match treeStep E s op with
+    | .ok (s', ret) => .ok (s', ret, none)
+    | .error e => .error e
+
+/-! #### counter-model: the Ref of before fix b196482, which kept the element it found first -/
+
+mutual
+/-- the state of the element with identity `i`, if it is still in the tree -/
+def Tree.findId : Tree → Nat → Option SState
+  | .leaf id _ st, i => if id = i then some st else none
+  | .dict _ ms, i => findIdL ms i
+  | .list _ ms, i => findIdL ms i
+def findIdL : List Tree → Nat → Option SState
+  | [], _ => none
+  | t :: rest, i => match t.findId i with
+                    | some s => some s
+                    | none => findIdL rest i
+end
+
+structure CachedState where
+  base : TState
+  cached : Option (Nat × SState)      -- identity of the element found at first use, and its last known state
+
+/-- keep the remembered state of the cached element up to date while it is in the tree -/
+def CachedState.sync (c : CachedState) : CachedState :=
+  match c.cached with
+  | some (i, st) => { c with cached := some (i, (c.base.tree.findId i).getD st) }
+  | none => c
+
+/-- the cached Ref (read-only operations suffice for the counter-example) -/
+def cachedStep (E : Env) (path : List PStep) (c : CachedState) : TOp → StepOut CachedState
+  | .refRead =>
+    match c.cached with
+    | some (_, st) => .ok (c, none, some (st.value, st.u))             -- the element remembered by `lazy_property`
+    | none =>
+      match c.base.tree.resolve path with
+      | some (.leaf id _ st) => .ok ({ c with cached := some (id, st) }, none, some (st.value, st.u))
+      | _ => .error .lookupError
+  | .refSet _ => .error .unmodelled
+  | op =>
+    match treeStep E c.base op with
+    | .ok (s', ret) => .ok (CachedState.sync { c with base := s' }, ret, none)
+    | .error e => .error e
 
 end Flatland.C18
